@@ -197,7 +197,18 @@ func TestMConnFraming(t *testing.T) {
 		case <-time.After(hangGuard):
 			hung = true
 		}
-		// all bytes are in (or the connection gave up): closing makes recvRoutine see EOF, so onError always fires
+		// All bytes have been handed over (or the connection gave up) - but the connection may still be working through
+		// what it buffered, and closing our end now would make its pong replies fail first and mask its verdict. Give it
+		// time to reach that verdict: generously when the model says it must refuse, briefly otherwise.
+		grace := 5 * time.Millisecond
+		if mustReject {
+			grace = 2 * time.Minute
+		}
+		select {
+		case <-errc:
+		case <-time.After(grace):
+		}
+		// closing makes recvRoutine see EOF, so onError always fires
 		_ = client.Close()
 		select {
 		case <-errc:
